@@ -19,7 +19,7 @@ import time
 
 VERIF = os.path.dirname(os.path.dirname(os.path.abspath(__file__)))
 REPO = os.environ.get("QV_REPO", "/repo")
-CACHE = os.path.join(VERIF, ".cache")
+CACHE = os.environ.get("QV_CACHE") or os.path.join(VERIF, ".cache")  # self-test tools use their own cache so that they never evict /repo's facts
 TARGET = os.path.join(CACHE, "target")
 QFACTS_BIN = os.path.join(VERIF, "qfacts", "target", "debug", "qfacts")
 QSYN_BIN = os.path.join(VERIF, "qsyn", "target", "release", "qsyn")
